@@ -117,10 +117,10 @@ below are untouched or (when shrinking) blank, the cursor ends at the start of w
 theorem altFlush_buf (r : RState) (sh : Bool) (w h : Nat) (b : Buf) (ls : List Line)
     (hw : r.width = w) (hw1 : 1 ≤ w) (hn1 : 1 ≤ ls.length) (hnh : ls.length ≤ h)
     (hskip : ∀ j l, ls[j]? = some l → canSkip r false sh ls.length j l = true →
-      rowShows w b (b.top + j) l) :
+      rowShows w b (b.top + j) (Ansi.visible l)) :
     ∀ b', b' = applyBufs w h b ([.home] ++ (paintOps r false sh ls.length 0 ls ++ [.cup ls.length])) →
     b'.top = b.top ∧ b'.cr = b.top + ls.length - 1 ∧ b'.cc = 0 ∧ b'.pw = false ∧
-    (∀ j l, ls[j]? = some l → rowShows w b' (b.top + j) l) ∧
+    (∀ j l, ls[j]? = some l → rowShows w b' (b.top + j) (Ansi.visible l)) ∧
     (∀ ρ, ρ < b.top → ∀ c, b'.cells ρ c = b.cells ρ c) ∧
     (sh = false → ∀ ρ, b.top + ls.length ≤ ρ → ∀ c, b'.cells ρ c = b.cells ρ c) ∧
     (sh = true → ∀ ρ, b.top + ls.length ≤ ρ → ρ < b.top + h → rowBlank w b' ρ) := by
